@@ -11,7 +11,7 @@ class attributes after every history equal their values before it.
 """
 import copy
 
-from harness.c08 import PIPES, PROBES, err_sig, make_rule
+from harness.c08 import PIPES, err_sig, make_rule
 from backends.vbackend import make_backend
 from sigma.backends.test import TextQueryTestBackend
 from sigma.collection import SigmaCollection
@@ -19,13 +19,13 @@ from sigma.exceptions import SigmaError
 from sigma.processing.pipeline import ProcessingPipeline
 from vlib.known import is_open
 from vlib.obl import Ob
-from vlib.params import P, concrete_section, fin
+from vlib.params import P, concrete_section, fin, sel
 
 PROPERTY = "C15"
 TARGETS = [
     "sigma.processing.pipeline:ProcessingPipeline.apply",
     "sigma.processing.pipeline:ProcessingPipeline.__add__",
-    "sigma.processing.pipeline:ProcessingPipeline.set_pipeline" if False else "sigma.processing.pipeline:ProcessingItemBase.set_pipeline",
+    "sigma.processing.pipeline:ProcessingPipeline.set_pipeline",
     "sigma.conversion.base:Backend.init_processing_pipeline",
     "sigma.conversion.base:Backend.convert_rule",
     "sigma.conversion.base:TextQueryBackend.__new__",
@@ -42,6 +42,7 @@ BOUNDS = {
 ASSUMPTIONS = ["fresh set-up = new backend instance of the same class, new pipeline from the same YAML, _parse_condition_string.cache_clear(), SigmaModifier._type_hint_cache.clear()"]
 
 NOPS = 10
+PROBES = [0, 8, 10, 11, 12, 14]
 TEMPLATE_ATTRS = [
     "eq_expression", "re_expression", "cidr_expression", "startswith_expression", "endswith_expression", "contains_expression",
     "case_sensitive_startswith_expression", "case_sensitive_endswith_expression", "case_sensitive_contains_expression",
@@ -69,21 +70,26 @@ def clear_caches():
     SigmaModifier._type_hint_cache.clear()
 
 
-def probe_result(b, kind, idx):
+def probe_result(b, kind, idx, mode=0):
     r = make_rule(kind, idx)
     nerr = len(b.errors)
     try:
-        out = list(b.convert(SigmaCollection([r])))
+        if mode == 0:
+            out = list(b.convert(SigmaCollection([r])))
+        else:  # single-rule entry point on an already initialised backend
+            if not hasattr(b, "last_processing_pipeline"):
+                b.init_processing_pipeline()
+            out = list(b.convert_rule(r))
     except SigmaError as e:
         return ("raised", err_sig(e))
     return ("ok", out, [err_sig(e) for _, e in b.errors[nerr:]])
 
 
-def run_history(ops, probe_kind, bk, pipe) -> bool:
+def run_history(ops, probe_kind, bk, pipe, mode=0) -> bool:
     cls = backend_class(bk)
-    snapshot = {a: getattr(cls, a, None) for a in TEMPLATE_ATTRS}
     clear_caches()
     A = new_backend(cls, pipe)
+    snapshot = {a: getattr(cls, a, None) for a in TEMPLATE_ATTRS}  # after the first instantiation (lazy class set-up in __new__)
     B = None
     for step, op in enumerate(ops):
         i = 10 + step
@@ -125,58 +131,48 @@ def run_history(ops, probe_kind, bk, pipe) -> bool:
                     A.collect_errors = True
         except SigmaError:
             pass
-    got = probe_result(A, probe_kind, 3)
+    got = probe_result(A, probe_kind, 3, mode)
     after = {a: getattr(cls, a, None) for a in TEMPLATE_ATTRS}
     clear_caches()
     F = new_backend(cls, pipe)
-    want = probe_result(F, probe_kind, 3)
+    want = probe_result(F, probe_kind, 3, mode)
     return got == want and after == snapshot
 
 
-def kf_excluded(ops) -> bool:
+def kf_excluded(ops, mode=0) -> bool:
     return False
 
 
-def c15_history(o0: int, o1: int, o2: int, o3: int, pk: int) -> bool:
+def c15_history(o0: int, o1: int, o2: int, o3: int, pk: int, single: bool) -> bool:
     """
-    pre: P("O0", 0) <= o0 <= (P("O0", 0) if P("O0", -1) >= 0 else NOPS - 1)
-    pre: 0 <= o1 < NOPS and 0 <= o2 < NOPS
+    pre: P("O0LO", 1) <= o0 <= P("O0HI", NOPS - 1)
+    pre: 0 <= o1 < NOPS
+    pre: 0 <= o2 < (NOPS if P("LEN", 3) >= 3 else 1)
     pre: 0 <= o3 < (NOPS if P("LEN", 3) >= 4 else 1)
+    pre: o1 != 0 or o2 == 0
+    pre: o2 != 0 or o3 == 0
     pre: 0 <= pk < len(PROBES)
     post: _
     """
-    os_ = [o0, o1, o2, o3]
-    ops = []
-    for i in range(4):
-        v = 0
-        for j in range(NOPS):
-            if os_[i] == j:
-                v = j
-        ops.append(v)
-    # canonical form: no-ops only at the end
-    for i in range(3):
-        if ops[i] == 0 and ops[i + 1] != 0:
-            return True
-    kind = PROBES[0]
-    for j in range(len(PROBES)):
-        if pk == j:
-            kind = PROBES[j]
-    if kf_excluded(ops):
+    ops = [sel(o0, NOPS), sel(o1, NOPS), sel(o2, NOPS), sel(o3, NOPS)]
+    kind = PROBES[sel(pk, len(PROBES))]
+    mode = 1 if single else 0
+    if kf_excluded(ops, mode):
         return True
     with concrete_section():
-        ok = run_history(ops, kind, P("BK", 0), P("PIPE", 1))
+        ok = run_history(ops, kind, P("BK", 0), P("PIPE", 1), mode)
     return fin(ok)
 
 
-def c15_concrete(o0: int, o1: int, o2: int, o3: int, probe_kind: int, bk: int, pipe: int) -> bool:
-    return run_history([o0, o1, o2, o3], probe_kind, bk, pipe)
+def c15_concrete(o0: int, o1: int, o2: int, o3: int, probe_kind: int, bk: int, pipe: int, mode: int = 0) -> bool:
+    return run_history([o0, o1, o2, o3], probe_kind, bk, pipe, mode)
 
 
-SETUPS = [(0, 1), (1, 1), (0, 2)]
 OBLIGATIONS = (
-    [Ob("c15_history", {"BK": bk, "PIPE": pp, "O0": o, "LEN": 3}, 600) for bk, pp in SETUPS[:2] for o in range(1, NOPS)]
-    + [Ob("c15_history", {"BK": 0, "PIPE": 2, "LEN": 3}, 900)]
-    + [Ob("c15_history", {"BK": bk, "PIPE": pp, "O0": o, "LEN": 4}, 3000, tier="thorough") for bk, pp in SETUPS[:2] for o in range(1, NOPS)]
+    [Ob("c15_history", {"BK": 0, "PIPE": 1, "O0LO": o, "O0HI": o, "LEN": 3}, 900) for o in range(1, NOPS)]
+    + [Ob("c15_history", {"BK": bk, "PIPE": pp, "O0LO": lo, "O0HI": lo + 2, "LEN": 2}, 600) for bk, pp in ((1, 1), (0, 2)) for lo in (1, 4, 7)]
+    + [Ob("c15_history", {"BK": bk, "PIPE": pp, "O0LO": o, "O0HI": o, "LEN": 3}, 3000, tier="thorough") for bk, pp in ((1, 1), (0, 2)) for o in range(1, NOPS)]
+    + [Ob("c15_history", {"BK": 0, "PIPE": 1, "O0LO": o, "O0HI": o, "LEN": 4}, 6000, tier="thorough") for o in range(1, NOPS)]
 )
 
 SELFCHECKS = [
